@@ -907,6 +907,17 @@ def VALUE0(K=0, horizon=5, ops=None):
     return spec(f'VALUE0[K{K}]', devs, horizon, ops, K)
 
 
+def FANTOGGLE(K=0, horizon=9, ops=None):
+    '''Two parallel machines; the input of the slow one is blocked and unblocked (scripted) while it is busy; the fast
+    one becomes idle in between; later both are idle and a part arrives: the one idle longest gets it.'''
+    devs = [src('S', 2), proc('M1', ['S'], 5.5), proc('M2', ['S'], 1), sink('K', ['M1', 'M2'])]
+    if ops is None:
+        ops = [('fail', 'M2', 0), ('restore', 'M2')]
+    s = spec(f'FANTOGGLE[K{K}]', devs, horizon, ops, K)
+    s['script'] = [[3, 2, ['block', 'M1', True]], [3.25, 2, ['block', 'M1', False]]]
+    return s
+
+
 def FANFAIL(K=2, horizon=8, ops=None):
     '''Parallel machines behind one source where one of them fails while idle and is repaired: from then on it has
     been waiting for a part since the repair, not since before the failure.'''
